@@ -703,8 +703,27 @@ def _loops_of(fn):
     return out
 
 
-def _fresh_uci(callnode):
-    return any(isinstance(a, ast.Call) and unp(a) == 'self._prss_uci()' for a in callnode.args)
+PRSS_CALLS = ('pseudorandom_share', 'np_pseudorandom_share') + ZERO_SHARING
+
+
+def _fresh_uci(callnode, fn=None):
+    """True: the call has its own `self._prss_uci()`.  A string: why it is NOT fresh (its uci variable also feeds another
+    PRSS call: the zero sharing is then correlated with that value).  Raises Unclassified when it cannot be followed."""
+    if any(isinstance(a, ast.Call) and unp(a) == 'self._prss_uci()' for a in callnode.args):
+        return True
+    names = [a.id for a in callnode.args if isinstance(a, ast.Name)]
+    if fn is not None:
+        for u in names:
+            assigns = sorted((n for n in ast.walk(fn) if isinstance(n, ast.Assign) and u in targets_of(n)
+                              and n.lineno < callnode.lineno), key=lambda n: n.lineno)
+            if assigns and unp(assigns[-1].value) == 'self._prss_uci()':    # the definition reaching the call
+                others = [n for n in ast.walk(fn) if isinstance(n, ast.Call) and n is not callnode and isinstance(n.func, ast.Attribute)
+                          and n.func.attr in PRSS_CALLS and any(isinstance(a, ast.Name) and a.id == u for a in n.args)
+                          and n.lineno > assigns[-1].lineno]
+                if others:
+                    return 'derived from the same uci %r as %s (line %d)' % (u, others[0].func.attr, others[0].lineno)
+                return True
+    raise Unclassified('zero sharing without its own self._prss_uci(): %s' % unp(callnode))
 
 
 def zero_sharing_flows(fn, stmts, calls):
@@ -719,12 +738,14 @@ def zero_sharing_flows(fn, stmts, calls):
             tg = targets_of(st)
             if len(tg) != 1:
                 raise Unclassified('zero sharing assigned to %r' % tg)
-            if not _fresh_uci(st.value):
-                raise Unclassified('zero sharing without its own self._prss_uci(): %s' % unp(st))
             defs.append((tg[0], st))
     znames = {n for n, _ in defs}
     flows = {}          # generation line -> set of site indices
     reused = {}
+    for _, d in defs:
+        why = _fresh_uci(d.value, fn)
+        if why is not True:
+            reused[d.lineno] = why
 
     def opening_of(W, line):
         for i, c in enumerate(calls):
@@ -749,8 +770,9 @@ def zero_sharing_flows(fn, stmts, calls):
             raise Unclassified('use of a zero sharing not understood: %s' % unp(st))
         site = opening_of(tg[0], st.lineno)
         for d in direct:
-            if not _fresh_uci(d):
-                raise Unclassified('zero sharing without its own self._prss_uci(): %s' % unp(st))
+            why = _fresh_uci(d, fn)
+            if why is not True:
+                reused[st.lineno] = why
             flows.setdefault(st.lineno, set()).add(site)
         for nm in used:
             cand = [d for n, d in defs if n == nm and d.lineno < st.lineno]
